@@ -336,8 +336,8 @@ def check(repo: Repo, R) -> None:
     fu = repo.func(F_PARAMS, "_unique_name")
     from . import shared
 
-    upd = pat.find("$H.update($D)", fu.node)
-    ok = bool(pat.find("hashlib.new('md5', usedforsecurity=False)", fu.node)) and len(upd) == 1 and pat.match("bytes(json.dumps(params, *$_), encoding='utf-8')", shared.prov(fu.node, upd[0][1]["D"])) is not None
+    from . import c09 as _c09
+    ok = all(_c09.digest_over_json(fu))
     R.check(ok, rule3, key_of(fu, "digest"), fu.site, f"hashed parameter names are a hashlib digest over the UTF-8 JSON text: {ok}", why="hashed names differ between processes")
     # source-order containers: SetList keeps insertion order (list-backed)
     sl = repo.cls(F_PORTREFS, "SetList")
